@@ -1015,6 +1015,7 @@ impl Template {
                         }
                     }
                     Rule::hbs_comment_compact => {
+                        omit_pro_ws = false;
                         trim_line_required = Template::process_standalone_statement(
                             &mut template_stack,
                             source,
@@ -1031,6 +1032,7 @@ impl Template {
                         t.push_element(Comment(text.to_owned()), line_no, col_no);
                     }
                     Rule::hbs_comment => {
+                        omit_pro_ws = false;
                         trim_line_required = Template::process_standalone_statement(
                             &mut template_stack,
                             source,
